@@ -17,8 +17,12 @@
 //!   sim-threads run <quick|thorough> --out <partial.json> [--replays <dir>]
 //!   sim-threads replay <file>
 
+#[path = "../../sim/src/cases.rs"]
+mod cases;
 #[path = "../../sim/src/exact.rs"]
 mod exact;
+#[path = "../../sim/src/faulty.rs"]
+mod faulty;
 #[path = "../../sim/src/free.rs"]
 mod free;
 #[path = "../../sim/src/machines.rs"]
@@ -193,6 +197,7 @@ struct Collected {
     samples: Vec<Value>,
     per_scenario: BTreeMap<String, u64>,
     interleavings: BTreeSet<u64>,
+    fired: BTreeMap<String, u64>,
 }
 
 thread_local! {
@@ -567,6 +572,239 @@ fn s4<M: Machine>() {
 }
 
 // ------------------------------------------------------------------------------------------
+// S5: the fault configuration under threads (C05 / C11)
+// ------------------------------------------------------------------------------------------
+
+/// a chunk of the fault workload: records (possibly carrying a corrupt one) and, for lock-step
+/// machines, possibly one record of one stream lost in transit
+#[derive(Clone)]
+struct FChunk {
+    c: Chunk,
+    /// Some((stream, position)): that record is dropped before delivery (desynchronised pair)
+    dropped: Option<(usize, usize)>,
+}
+
+fn draw_fault_workload<M: Machine>(nonpositive_only: bool) -> (Workload, Vec<FChunk>, Vec<(String, u64)>) {
+    let flt = M::FLT;
+    let positive = matches!(M::TRANSFORM, Transform::Ln | Transform::Recip);
+    let family = if flt == Flt::Int { srand(10) as u8 } else { [0u8, 2, 3, 5, 7][srand(5) as usize] };
+    let n_chunks = 1 + srand(6) as usize;
+    let scale_exp = if flt == Flt::Int { 0 } else { srand(17) as i32 - 8 };
+    let styles = chunk_styles::<M>();
+    let seed = shuttle::rand::thread_rng().gen::<u64>();
+    let lens: Vec<usize> = (0..n_chunks).map(|_| [0usize, 1, 1, 2, 3, 5][srand(6) as usize]).collect();
+    let total: usize = lens.iter().sum();
+    let t0 = tape::gen_tape(family, seed, total, flt, positive, scale_exp);
+    let t1 = if M::STREAMS == 2 { tape::gen_tape([0u8, 2, 7][srand(3) as usize], seed ^ 0xABCD, total, flt, positive, scale_exp) } else { vec![] };
+    let payloads = if nonpositive_only { faulty::nonpositive_payloads(flt) } else { faulty::corrupt_payloads(flt) };
+    let fault_rate = [1u64, 3, 6][srand(3) as usize]; // out of 10
+    let mut fired: Vec<(String, u64)> = Vec::new();
+    let mut chunks = Vec::new();
+    let mut off = 0;
+    for (i, &len) in lens.iter().enumerate() {
+        let mut a = t0[off..off + len].to_vec();
+        let mut b = if M::STREAMS == 2 { t1[off..off + len].to_vec() } else { vec![] };
+        off += len;
+        let mut dropped = None;
+        if len > 0 && srand(10) < fault_rate {
+            if flt != Flt::Int && (srand(3) != 0 || !M::LOCKSTEP) {
+                let (name, bits) = payloads[srand(payloads.len() as u64) as usize];
+                let pos = srand(len as u64) as usize;
+                if M::STREAMS == 2 && srand(2) == 1 {
+                    b[pos] = bits;
+                } else {
+                    a[pos] = bits;
+                }
+                fired.push((format!("corrupt:{name}"), 1));
+            } else if M::LOCKSTEP {
+                dropped = Some((srand(2) as usize, srand(len as u64) as usize));
+                fired.push(("desync:drop".into(), 1));
+            }
+        }
+        chunks.push(FChunk { c: Chunk { id: i as u32, recs: [a, b], style: styles[srand(styles.len() as u64) as usize], ctor: srand(M::N_EMPTY as u64) as u8 }, dropped });
+    }
+    let n_workers = 2 + srand(2) as usize;
+    let w = Workload { chunks: chunks.iter().map(|f| f.c.clone()).collect(), n_workers, exact_data: false, knobs: json!({"family": tape::FAMILY_NAMES[family as usize % 12], "chunk_lens": lens, "workers": n_workers, "fault_rate_tenths": fault_rate}) };
+    (w, chunks, fired)
+}
+
+/// records of a fault chunk as they reach the library (after a possible drop)
+fn delivered_recs(f: &FChunk) -> [Vec<Bits>; 2] {
+    let mut r = f.c.recs.clone();
+    if let Some((st, pos)) = f.dropped {
+        if pos < r[st].len() {
+            r[st].remove(pos);
+        }
+    }
+    r
+}
+
+struct FRunning<M: Machine> {
+    state: M::S,
+    log: Vec<FLog>,
+    next_slot: u16,
+}
+
+#[derive(Clone, Debug)]
+enum FLog {
+    Deliver { slot: u16, chunk: u32 },
+    Merge { a: u16, b: u16, op: u8 },
+    Observe { a: u16 },
+}
+
+/// S5: workers feed faulty chunks into a shared running aggregate (directly under the lock, or
+/// through a local partial that is merged under the lock even if its delivery was rejected
+/// half-way); a monitor clones the aggregate under the lock and asks for intervals.
+fn s5<M: Machine>(nonpositive_only: bool) {
+    let (w, fchunks, fired) = draw_fault_workload::<M>(nonpositive_only);
+    let shared = Arc::new(Mutex::new(FRunning::<M> { state: M::empty(0), log: Vec::new(), next_slot: 1 }));
+    let queue = Arc::new(Mutex::new(fchunks.iter().cloned().collect::<VecDeque<FChunk>>()));
+    let lops = left_ops::<M>();
+    let mut hs = Vec::new();
+    for _ in 0..w.n_workers {
+        let sh = shared.clone();
+        let q = queue.clone();
+        let lops = lops.clone();
+        hs.push(thread::spawn(move || loop {
+            let f = { q.lock().unwrap().pop_front() };
+            let Some(f) = f else { break };
+            let recs = delivered_recs(&f);
+            if srand(2) == 0 {
+                let mut g = sh.lock().unwrap();
+                // the outcome (Ok / documented Err / panic) is judged by the sequential replay
+                let _ = M::deliver(&mut g.state, f.c.style, 0, [&recs[0], &recs[1]]);
+                g.log.push(FLog::Deliver { slot: 0, chunk: f.c.id });
+            } else {
+                let mut local = M::empty(0);
+                let _ = M::deliver(&mut local, f.c.style, 0, [&recs[0], &recs[1]]);
+                thread::sleep(std::time::Duration::from_nanos(0));
+                let mut g = sh.lock().unwrap();
+                let s = g.next_slot;
+                g.next_slot += 1;
+                let op = lops[srand(lops.len() as u64) as usize];
+                let cur = g.state.clone();
+                g.state = M::merge(cur, local, op);
+                g.log.push(FLog::Deliver { slot: s, chunk: f.c.id });
+                g.log.push(FLog::Merge { a: 0, b: s, op });
+            }
+        }));
+    }
+    let mon = {
+        let sh = shared.clone();
+        let n_obs = 1 + srand(2) as usize;
+        thread::spawn(move || {
+            for _ in 0..n_obs {
+                let snap = {
+                    let mut g = sh.lock().unwrap();
+                    g.log.push(FLog::Observe { a: 0 });
+                    g.state.clone()
+                };
+                let _ = M::observe(&snap, ObsPlan { confs: &[18, 1], unguarded: true });
+                thread::sleep(std::time::Duration::from_nanos(0));
+            }
+        })
+    };
+    for h in hs {
+        h.join().unwrap();
+    }
+    mon.join().unwrap();
+    let mut g = shared.lock().unwrap();
+    let log = std::mem::take(&mut g.log);
+    let st = g.state.clone();
+    drop(g);
+    // ---- bridge: tapes hold the chunks (as generated, faults included) in delivery order;
+    // a dropped record becomes a Fault{drop} event on the Engine-A side
+    let mut tapes: [Vec<Bits>; 2] = [Vec::new(), Vec::new()];
+    let mut events = vec![Event::Deliver { dst: 0, stream: 0, len: 0, style: chunk_styles::<M>()[0], ctor: 0 }];
+    for l in &log {
+        match l {
+            FLog::Deliver { slot, chunk } => {
+                let f = &fchunks[*chunk as usize];
+                tapes[0].extend_from_slice(&f.c.recs[0]);
+                tapes[1].extend_from_slice(&f.c.recs[1]);
+                let len = f.c.recs[0].len() as u32;
+                match f.dropped {
+                    Some((st, pos)) => events.push(Event::Fault { dst: *slot, stream: st as u8, len, style: f.c.style, kind: faulty::FK_DROP, pos: pos as u32, payload: 0 }),
+                    None => events.push(Event::Deliver { dst: *slot, stream: 0, len, style: f.c.style, ctor: 0 }),
+                }
+            }
+            FLog::Merge { a, b, op } => events.push(Event::Merge { a: *a, b: *b, op: *op, dst: *a }),
+            FLog::Observe { a } => events.push(Event::Query { a: *a, confs: vec![18, 1] }),
+        }
+    }
+    events.push(Event::Query { a: 0, confs: vec![18, 19, 20, 2] });
+    let tr = Trace {
+        property: if nonpositive_only { "C05".into() } else { "C11".into() },
+        config: "fault".into(),
+        machine: M::name(),
+        verif_seed: verif_seed(),
+        run_index: 0,
+        exact_data: false,
+        isolated: false,
+        tapes: [TapeSpec::Explicit(tapes[0].clone()), TapeSpec::Explicit(tapes[1].clone())],
+        events,
+        knobs: json!({"scenario": "S5-faulty-streams-into-shared-aggregate+monitor", "workload": w.knobs}),
+        violation: None,
+        extra: Value::Null,
+    };
+    let mut stats = Stats::default();
+    let mut probe: Vec<String> = Vec::new();
+    let known = std::collections::BTreeSet::new();
+    let (viols, reach, _) = faulty::exec_probe::<M>(&tr, &mut stats, &known, Some(&mut probe));
+    let mut violation = viols.into_iter().next();
+    if violation.is_none() {
+        let fp = M::fingerprint(&st);
+        if probe.last() != Some(&fp) {
+            violation = Some(Violation::new(&tr.property, "thread-result-differs-from-sequential-replay-of-its-logical-trace", 0, format!("threads computed {fp}, sequential replay computed {:?}", probe.last())));
+        }
+    }
+    let mut d = rng::Digest::new();
+    for l in &log {
+        match l {
+            FLog::Deliver { slot, chunk } => {
+                d.u64(1);
+                d.u64(*slot as u64);
+                d.u64(*chunk as u64);
+            }
+            FLog::Merge { a, b, op } => {
+                d.u64(2);
+                d.u64(*a as u64);
+                d.u64(*b as u64);
+                d.u64(*op as u64);
+            }
+            FLog::Observe { a } => {
+                d.u64(4);
+                d.u64(*a as u64);
+            }
+        }
+    }
+    let failed = violation.is_some();
+    COLLECT.with(|c| {
+        let mut c = c.borrow_mut();
+        c.executions += 1;
+        c.stats.merge(&stats);
+        c.shapes.insert(reach.shape);
+        c.interleavings.insert(d.0 ^ reach.shape);
+        c.steps += reach.steps;
+        for (k, v) in &fired {
+            *c.fired.entry(k.clone()).or_insert(0) += v;
+        }
+        *c.per_scenario.entry(format!("S5/{}", M::name())).or_insert(0) += 1;
+        if c.samples.len() < 2 {
+            c.samples.push(json!({"scenario": "S5", "machine": M::name(), "workload": w.knobs, "logical_trace": log.iter().take(12).map(|l| format!("{:?}", l)).collect::<Vec<_>>()}));
+        }
+        if let Some(v) = violation {
+            if c.first_violation.is_none() {
+                c.first_violation = Some((tr, v));
+            }
+        }
+    });
+    if failed {
+        panic!("oracle violation (see replay file)");
+    }
+}
+
+// ------------------------------------------------------------------------------------------
 // driver
 // ------------------------------------------------------------------------------------------
 
@@ -592,6 +830,8 @@ fn scenario_fn(s: &str, m: &str) -> Box<dyn Fn() + Send + Sync + 'static> {
             "S1" => Box::new(s1::<M>),
             "S2" => Box::new(s2::<M>),
             "S3" => Box::new(s3::<M>),
+            "S5" => Box::new(|| s5::<M>(false)),
+            "S5N" => Box::new(|| s5::<M>(true)),
             _ => Box::new(s4::<M>),
         }
     }
@@ -609,11 +849,25 @@ struct ShardOut {
 }
 
 /// One shard = one shuttle Runner (own seed, `iters` executions) for one (scenario, machine, scheduler).
-fn run_shard(shard: u64, iters: usize, sched_dir: &std::path::Path) -> ShardOut {
-    let scenario = SCENARIOS[(shard % 4) as usize];
-    let machine = MACHINES[((shard / 4) % 12) as usize];
-    let use_pct = (shard / 48) % 2 == 1;
-    let seed = rng::mix(verif_seed(), "engineB", shard);
+/// shard plan per mode: (scenario, machine, use_pct)
+fn shard_plan(mode: &str, shard: u64) -> (&'static str, &'static str, bool) {
+    match mode {
+        "c11" => ("S5", MACHINES[(shard % 12) as usize], (shard / 12) % 2 == 1),
+        "c05" => ("S5N", ["Geometric<f32>", "Geometric<f64>", "Harmonic<f32>", "Harmonic<f64>"][(shard % 4) as usize], (shard / 4) % 2 == 1),
+        _ => (SCENARIOS[(shard % 4) as usize], MACHINES[((shard / 4) % 12) as usize], (shard / 48) % 2 == 1),
+    }
+}
+fn n_shards(mode: &str) -> u64 {
+    match mode {
+        "c11" => 24,
+        "c05" => 8,
+        _ => 96,
+    }
+}
+
+fn run_shard(mode: &str, shard: u64, iters: usize, sched_dir: &std::path::Path) -> ShardOut {
+    let (scenario, machine, use_pct) = shard_plan(mode, shard);
+    let seed = rng::mix(verif_seed(), &format!("engineB/{mode}"), shard);
     COLLECT.with(|c| *c.borrow_mut() = Collected::default());
     let dir = sched_dir.join(format!("shard{shard}"));
     std::fs::create_dir_all(&dir).ok();
@@ -641,7 +895,12 @@ fn run_shard(shard: u64, iters: usize, sched_dir: &std::path::Path) -> ShardOut 
                 Ok(()) => String::new(),
             };
             let tr = Trace {
-                property: "C09".into(),
+                property: match mode {
+                    "c11" => "C11",
+                    "c05" => "C05",
+                    _ => "C09",
+                }
+                .into(),
                 config: "free".into(),
                 machine: machine.into(),
                 verif_seed: verif_seed(),
@@ -654,7 +913,8 @@ fn run_shard(shard: u64, iters: usize, sched_dir: &std::path::Path) -> ShardOut 
                 violation: None,
                 extra: Value::Null,
             };
-            collected.first_violation = Some((tr, Violation::new("C09", "thread-level-failure", 0, msg)));
+            let pid = tr.property.clone();
+            collected.first_violation = Some((tr, Violation::new(&pid, "thread-level-failure", 0, msg)));
         }
     } else {
         std::fs::remove_dir_all(&dir).ok();
@@ -663,6 +923,10 @@ fn run_shard(shard: u64, iters: usize, sched_dir: &std::path::Path) -> ShardOut 
 }
 
 fn exec_trace_generic<M: Machine>(tr: &Trace, stats: &mut Stats) -> Option<Violation> {
+    if tr.config == "fault" {
+        let known = std::collections::BTreeSet::new();
+        return faulty::exec::<M>(tr, stats, &known).0.into_iter().next();
+    }
     free::exec::<M>(tr, stats).0
 }
 
@@ -718,20 +982,32 @@ fn main() {
     let tier = args[2].clone();
     let mut out = PathBuf::from("/verif/target/partial/C09.B.json");
     let mut replays = PathBuf::from("/verif/replays");
+    let mut mode = "free".to_string();
     let mut i = 3;
     while i + 1 < args.len() {
         match args[i].as_str() {
             "--out" => out = PathBuf::from(&args[i + 1]),
             "--replays" => replays = PathBuf::from(&args[i + 1]),
+            "--mode" => mode = args[i + 1].clone(),
             _ => {}
         }
         i += 2;
     }
+    let pid = match mode.as_str() {
+        "c11" => "C11",
+        "c05" => "C05",
+        _ => "C09",
+    };
     let t0 = std::time::Instant::now();
     // 96 shards = 4 scenarios x 12 machines x {random, pct}; iterations per shard by tier
-    let iters: usize = if tier == "thorough" { 20_000 } else { 1_500 };
-    let n_shards: u64 = 96;
-    println!("[sim-threads] VERIF_SEED={} tier={} shards={} executions/shard={}", verif_seed(), tier, n_shards, iters);
+    let iters: usize = match (tier.as_str(), mode.as_str()) {
+        ("thorough", "free") => 20_000,
+        ("thorough", _) => 40_000,
+        (_, "free") => 1_500,
+        _ => 3_000,
+    };
+    let n_shards: u64 = n_shards(&mode);
+    println!("[sim-threads] VERIF_SEED={} tier={} mode={} shards={} executions/shard={}", verif_seed(), tier, mode, n_shards, iters);
     let sched_dir = replays.join("shuttle");
     std::fs::create_dir_all(&sched_dir).ok();
     let next = std::sync::atomic::AtomicU64::new(0);
@@ -744,7 +1020,7 @@ fn main() {
                 if s >= n_shards {
                     break;
                 }
-                let o = run_shard(s, iters, &sched_dir);
+                let o = run_shard(&mode, s, iters, &sched_dir);
                 outs.lock().unwrap().push(o);
             });
         }
@@ -762,6 +1038,9 @@ fn main() {
         total.steps += o.collected.steps;
         for (k, v) in &o.collected.per_scenario {
             *total.per_scenario.entry(k.clone()).or_insert(0) += v;
+        }
+        for (k, v) in &o.collected.fired {
+            *total.fired.entry(k.clone()).or_insert(0) += v;
         }
         if total.samples.len() < 6 {
             total.samples.extend(o.collected.samples.iter().take(1).cloned());
@@ -793,7 +1072,8 @@ fn main() {
             tr.clone()
         };
         std::fs::create_dir_all(&replays).ok();
-        let path = replays.join(format!("C09-engineB-{}-shard{}.json", v.invariant, o.shard));
+        let clean: String = v.invariant.chars().map(|c| if c.is_ascii_alphanumeric() || c == '-' || c == '_' { c } else { '_' }).collect();
+        let path = replays.join(format!("{}-engineB-{}-shard{}.json", v.property, clean, o.shard));
         let mut j = min.to_json();
         j["engine"] = json!("B");
         j["extra"] = json!({
@@ -805,15 +1085,15 @@ fn main() {
         std::fs::write(&path, serde_json::to_string_pretty(&j).unwrap()).expect("write replay");
         let mv = min.violation.as_ref().unwrap_or(v);
         println!("[sim-threads] {}: {}", mv.invariant, mv.detail);
-        println!("VIOLATION property=C09 replay={}", path.display());
+        println!("VIOLATION property={} replay={}", mv.property, path.display());
     }
     let wall = t0.elapsed().as_secs_f64();
     let j = json!({
-        "property_id": "C09", "tier": tier, "seed": verif_seed(), "level": "exploration",
+        "property_id": pid, "tier": tier, "seed": verif_seed(), "level": if pid == "C09" { "exploration" } else { "fault_enumeration" },
         "coverage": {
             "evaluations": total.executions,
             "distinct_nontrivial": total.interleavings.len(),
-            "rule": "one evaluation = one shuttle-scheduled execution of a thread scenario (S1 work queue + lock combine, S2 channel fan-in, S3 shared aggregate + monitor with linearizability check, S4 fork-join tree) over real stats-ci states, bridged to a sequential Engine-A replay with the C09 oracle; distinct = distinct logical interleavings (order of chunk-to-partial assignments, merges with orientation, monitor observations; data erased)",
+            "rule": if mode == "free" { "one evaluation = one shuttle-scheduled execution of a thread scenario (S1 work queue + lock combine, S2 channel fan-in, S3 shared aggregate + monitor with linearizability check, S4 fork-join tree) over real stats-ci states, bridged to a sequential Engine-A replay with the C09 oracle; distinct = distinct logical interleavings (order of chunk-to-partial assignments, merges with orientation, monitor observations; data erased)" } else { "one evaluation = one shuttle-scheduled execution of scenario S5: worker threads feed chunks that may carry a corrupt record or a dropped record into a shared aggregate (directly under the lock, or through a local partial merged under the lock even after a rejected delivery) while a monitor thread clones and queries it; the logical trace is replayed sequentially by the fault-configuration executor (documented outcome of every delivery, post-rejection state, totality of every query, twin refinement) and must reproduce the thread result bit for bit; distinct = distinct logical interleavings" },
             "samples": total.samples,
             "engine_B": {
                 "schedulers": ["RandomScheduler::new_from_seed", "PctScheduler::new_from_seed(depth 2..3)"],
@@ -824,6 +1104,7 @@ fn main() {
                 "distinct_merge_trees": total.trees.len(),
                 "simulated_steps": total.steps,
                 "counters": total.stats.counters,
+                "fault_kinds_fired": total.fired,
                 "worst_ratio_over_tolerance": total.stats.worst,
                 "executions_per_hour": if wall > 0.0 { total.executions as f64 / wall * 3600.0 } else { 0.0 },
                 "wall_s": wall,
